@@ -60,7 +60,7 @@ def lift(x):
 
 
 def is_sym(x):
-    return isinstance(x, (SymR, SymI, SymC, SymB, SymF))
+    return isinstance(x, (SymR, SymI, SymC, SymB, SymF, SymBV))
 
 
 class SymB:
@@ -321,8 +321,62 @@ class SymI(SymR):
 
     __int__ = __index__
 
+    def __hash__(s):
+        return hash(_ENG[0].fork_int(s.e))
+
     def __repr__(s):
         return "SymI(%s)" % z3.simplify(s.e)
+
+
+class SymBV:
+    """fixed-width bit-vector (default 32); comparisons fork"""
+    __slots__ = ("e",)
+
+    def __init__(self, e):
+        self.e = e
+
+    def _o(self, o):
+        if isinstance(o, SymBV):
+            return o.e
+        if isinstance(o, (int, _np.integer)) and not isinstance(o, bool):
+            return z3.BitVecVal(int(o), self.e.size())
+        return None
+
+    def __and__(s, o):
+        o = s._o(o)
+        return NotImplemented if o is None else SymBV(s.e & o)
+
+    __rand__ = __and__
+
+    def __or__(s, o):
+        o = s._o(o)
+        return NotImplemented if o is None else SymBV(s.e | o)
+
+    __ror__ = __or__
+
+    def __xor__(s, o):
+        o = s._o(o)
+        return NotImplemented if o is None else SymBV(s.e ^ o)
+
+    def __invert__(s):
+        return SymBV(~s.e)
+
+    def __eq__(s, o):
+        o = s._o(o)
+        return NotImplemented if o is None else SymB(s.e == o)
+
+    def __ne__(s, o):
+        o = s._o(o)
+        return NotImplemented if o is None else SymB(s.e != o)
+
+    def __bool__(s):
+        return _ENG[0].decide(s.e != 0)
+
+    def __hash__(s):
+        return id(s)
+
+    def __repr__(s):
+        return "SymBV(%s)" % z3.simplify(s.e)
 
 
 class SymC:
